@@ -30,7 +30,7 @@ Public interface:  analyse(src, mode="const") -> dict ;  verdict(res) -> str
 import ast
 
 MODULE_NAMES = {
-    "guppy", "range", "int", "float", "bool", "len", "abs", "True", "False", "None",
+    "guppy", "range", "int", "float", "bool", "len", "abs", "True", "False", "None", "array",
 }
 
 U = "U"
@@ -84,6 +84,20 @@ def _assigned_names(body):
                     out.append(s.name)
 
     walk(body)
+
+    def walrus(stmts):
+        for st in stmts:
+            if isinstance(st, ast.FunctionDef):
+                continue
+            todo = [st]
+            while todo:
+                n = todo.pop()
+                if isinstance(n, ast.FunctionDef) and n is not st:
+                    continue
+                if isinstance(n, ast.NamedExpr) and n.target.id not in out:
+                    out.append(n.target.id)
+                todo += list(ast.iter_child_nodes(n))
+    walrus(body)
     return out
 
 
@@ -133,6 +147,7 @@ class _Func:
         self.vars = self.locals + [x for x in self.captured_vals if x not in self.locals]
         self.idx = {x: i for i, x in enumerate(self.vars)}
         self.loops = []
+        self.comp_scope = []
         # non-local reads of enclosing-function locals reached in this body:
         # var -> {pos: set of dead flags}
         self.outer_reads = {}
@@ -183,46 +198,106 @@ class _Func:
         self.rec.globals_undef.add((x, pos, dead))
         return P
 
-    def eval(self, e, env, dead):
-        """Evaluates expression e (recording reads in source order); returns its type."""
+    def evalx(self, e, env, dead):
+        """Evaluates expression e in env following Python's evaluation order; every short-circuit /
+        conditional outcome is possible.  Returns a list of (env after, type): assignment
+        expressions bind in the enclosing function scope at the point they are evaluated;
+        comprehension variables are local to the comprehension."""
         if isinstance(e, ast.Constant):
             if isinstance(e.value, bool):
-                return "bool"
+                return [(env, "bool")]
             if isinstance(e.value, int):
-                return "int"
+                return [(env, "int")]
             if isinstance(e.value, float):
-                return "float"
-            return P
+                return [(env, "float")]
+            return [(env, P)]
         if isinstance(e, ast.Name):
-            return self.read_name(e, env, dead)
+            if e.id in self.comp_scope:
+                return [(env, "int")]
+            return [(env, self.read_name(e, env, dead))]
+        if isinstance(e, ast.NamedExpr):
+            out = []
+            for env1, v in self.evalx(e.value, env, dead):
+                v1 = P if v == "global" else v
+                out.append((self.set(env1, e.target.id, v1), v1))
+            return out
         if isinstance(e, ast.BinOp):
-            l = self.eval(e.left, env, dead)
-            r = self.eval(e.right, env, dead)
-            if l == P or r == P:
-                return P
-            if "float" in (l, r):
-                return "float"
-            return l
+            out = []
+            for env1, l in self.evalx(e.left, env, dead):
+                for env2, r in self.evalx(e.right, env1, dead):
+                    t = P if (l == P or r == P) else ("float" if "float" in (l, r) else l)
+                    out.append((env2, t))
+            return out
         if isinstance(e, ast.UnaryOp):
-            v = self.eval(e.operand, env, dead)
-            return "bool" if isinstance(e.op, ast.Not) else v
+            return [(env1, "bool" if isinstance(e.op, ast.Not) else v) for env1, v in self.evalx(e.operand, env, dead)]
         if isinstance(e, ast.Compare):
-            self.eval(e.left, env, dead)
-            for c in e.comparators:
-                self.eval(c, env, dead)
-            return "bool"
+            # a op b op c ...: operands left to right; the chain stops at the first false comparison
+            cur = self.evalx(e.left, env, dead)
+            cur = [(env2, "bool") for env1, _ in cur for env2, _ in self.evalx(e.comparators[0], env1, dead)]
+            out = list(cur)
+            for c in e.comparators[1:]:
+                cur = [(env2, "bool") for env1, _ in cur for env2, _ in self.evalx(c, env1, dead)]
+                out += cur
+            return out
+        if isinstance(e, ast.BoolOp):
+            cur = self.evalx(e.values[0], env, dead)
+            out = list(cur)
+            for v in e.values[1:]:
+                cur = [(env2, t) for env1, _ in cur for env2, t in self.evalx(v, env1, dead)]
+                out += cur
+            return out
+        if isinstance(e, ast.IfExp):
+            out = []
+            for env1, _ in self.evalx(e.test, env, dead):
+                out += self.evalx(e.body, env1, dead)
+                out += self.evalx(e.orelse, env1, dead)
+            return out
+        if isinstance(e, (ast.ListComp, ast.GeneratorExp)):
+            cur = [env]
+            names = []
+            for k, g in enumerate(e.generators):
+                cur = [env2 for env1 in cur for env2, _ in self.evalx(g.iter, env1, dead)]
+                for n in ast.walk(g.target):
+                    if isinstance(n, ast.Name):
+                        names.append(n.id)
+                        self.comp_scope.append(n.id)
+                for c in g.ifs:
+                    for env1 in cur:
+                        self.evalx(c, env1, dead)
+            for env1 in cur:
+                self.evalx(e.elt, env1, dead)      # reads only; nothing bound inside escapes
+            for _ in names:
+                self.comp_scope.pop()
+            return [(env1, "comp") for env1 in cur]
         if isinstance(e, ast.Call):
-            self.eval(e.func, env, dead)
+            cur = self.evalx(e.func, env, dead)
+            comp = False
             for a in e.args:
-                self.eval(a, env, dead)
-            return "int"
+                nxt = []
+                for env1, _ in cur:
+                    for env2, t in self.evalx(a, env1, dead):
+                        comp = comp or t == "comp"
+                        nxt.append((env2, t))
+                cur = nxt
+            return [(env1, "comp" if comp else "int") for env1, _ in cur]
         for n in _name_loads(e):
             self.read_name(n, env, dead)
-        return P
+        return [(env, P)]
+
+    def eval(self, e, env, dead):
+        """Type of e in env (first outcome); kept for callers that only need the reads."""
+        return self.evalx(e, env, dead)[0][1]
+
+    def eval_state(self, e, st):
+        """The flow state after evaluating e (bindings made by assignment expressions)."""
+        out = set()
+        for env in st[1]:
+            for env1, _ in self.evalx(e, env, st[0]):
+                out.add(env1)
+        return (st[0], frozenset(out))
 
     def reads_only(self, e, st):
-        for env in st[1]:
-            self.eval(e, env, st[0])
+        self.eval_state(e, st)
 
     # ---- states ----------------------------------------------------------
     @staticmethod
@@ -255,27 +330,26 @@ class _Func:
         if isinstance(s, ast.Pass):
             return st
         if isinstance(s, ast.Expr):
-            self.reads_only(s.value, st)
-            return st
+            return self.eval_state(s.value, st)
         if isinstance(s, ast.Assign):
             out = set()
             for env in envs:
-                v = self.eval(s.value, env, dead)
-                if v == "global":
-                    v = P
-                e2 = env
-                for t in s.targets:
-                    for n in ast.walk(t):
-                        if isinstance(n, ast.Name):
-                            e2 = self.set(e2, n.id, v)
-                out.add(e2)
+                for env1, v in self.evalx(s.value, env, dead):
+                    if v == "global":
+                        v = P
+                    e2 = env1
+                    for t in s.targets:
+                        for n in ast.walk(t):
+                            if isinstance(n, ast.Name):
+                                e2 = self.set(e2, n.id, v)
+                    out.add(e2)
             return (dead, frozenset(out))
         if isinstance(s, ast.AugAssign):
             out = set()
             for env in envs:
-                self.eval(s.value, env, dead)
-                tv = self.read_name(ast.copy_location(ast.Name(id=s.target.id, ctx=ast.Load()), s.target), env, dead)
-                out.add(self.set(env, s.target.id, tv))
+                for env1, _ in self.evalx(s.value, env, dead):
+                    tv = self.read_name(ast.copy_location(ast.Name(id=s.target.id, ctx=ast.Load()), s.target), env1, dead)
+                    out.add(self.set(env1, s.target.id, tv))
             return (dead, frozenset(out))
         if isinstance(s, ast.Return):
             if s.value is not None:
@@ -300,7 +374,8 @@ class _Func:
     def do_if(self, s, st):
         dead, envs = st
         c = const_cond(s.test) if self.mode == "const" else None
-        self.reads_only(s.test, st)
+        st = self.eval_state(s.test, st)
+        dead, envs = st
         then_in = st if c is not False else (True, envs)
         else_in = st if c is not True else (True, envs)
         t = self.block(s.body, then_in)
@@ -311,8 +386,8 @@ class _Func:
         c = const_cond(s.test) if self.mode == "const" else None
         head = st
         while True:
-            self.reads_only(s.test, head)
-            body_in = head if c is not False else (True, head[1])
+            tested = self.eval_state(s.test, head)
+            body_in = tested if c is not False else (True, tested[1])
             self.loops.append({"breaks": [], "continues": []})
             out = self.block(s.body, body_in)
             lp = self.loops.pop()
@@ -320,7 +395,8 @@ class _Func:
             if new_head == head:
                 break
             head = new_head
-        exit_st = head if c is not True else (True, head[1])
+        tested = self.eval_state(s.test, head)
+        exit_st = tested if c is not True else (True, tested[1])
         return self.join(exit_st, *lp["breaks"])
 
     def do_for(self, s, st):
